@@ -6,6 +6,7 @@ package main
 //   gosym replay -id C12 -file F         replay a counterexample natively
 
 import (
+	"runtime"
 	"runtime/debug"
 	"runtime/pprof"
 	"encoding/json"
@@ -75,13 +76,14 @@ func cmdCheck(args []string) int {
 	verif := fs.String("verif", "/verif", "verification directory")
 	only := fs.String("harness", "", "regexp restricting harness names")
 	workers := fs.Int("workers", 0, "number of workers (default: min(16, cores))")
-	solver := fs.String("solver", "z3", "z3|z3-new|cvc5")
+	solver := fs.String("solver", "z3-new", "z3-new (5.1.0) | z3 (4.8.12) | cvc5")
 	verbose := fs.Bool("v", false, "verbose")
 	noReplay := fs.Bool("no-replay", false, "skip native replay/validation (debugging)")
 	budget := fs.Duration("budget", 0, "per-harness wall-clock budget override")
 	cpuprof := fs.String("cpuprofile", "", "write a CPU profile")
 	profile := fs.Bool("profile", false, "count symbolic branch sites")
 	qto := fs.Int("qtimeout", 0, "primary solver per-query timeout in ms")
+	slicing := fs.Bool("slicing", false, "constraint-independence slicing (non-incremental queries)")
 	noIfConv := fs.Bool("no-ifconv", false, "disable if-conversion (debugging)")
 	twin := fs.Bool("twin", false, "vacuity twin: negate every final assertion (must be violated)")
 	fs.Parse(args)
@@ -101,6 +103,9 @@ func cmdCheck(args []string) int {
 		cfg.workers = *workers
 	}
 	cfg.solverKind = *solver
+	// goroutines blocked on a solver pipe need no P; spare Ps keep wake-up
+	// latency low when all workers are busy
+	runtime.GOMAXPROCS(max(32, 2*cfg.workers))
 	cfg.verbose = *verbose
 	cfg.debugHostPanics = *verbose
 	if *budget > 0 {
@@ -110,6 +115,7 @@ func cmdCheck(args []string) int {
 		cfg.seed, _ = strconv.ParseInt(s, 10, 64)
 	}
 	_ = twin
+	cfg.slicing = *slicing
 	cfg.profile = *profile
 	if *qto > 0 {
 		cfg.queryTimeoutMs = *qto
